@@ -274,7 +274,9 @@ class CodeBuilder:
                 else:
                     return field.default_factory
         else:
-            return self.namespace.get(name, MISSING)
+            # like dataclasses: a re-annotated field without a value of its
+            # own takes the class attribute it inherits as its default
+            return getattr(self.cls, name, MISSING)
 
     def add_type_modules(self, *types_: typing.Type) -> None:
         for t in types_:
